@@ -108,7 +108,10 @@ func checkExactStats(c *core.Ctx, st *skState) {
 	got := k.GetSum()
 	L := float64(st.mdl.Lossy)
 	bound := (16+8*L)*0x1p-53*es.absSum + 1e-300 // the additive term covers rounding of subnormal products
-	if es.absSum > math.MaxFloat64/1024 {
+	if es.absSum > st.mdl.PeakAbs {
+		st.mdl.PeakAbs = es.absSum
+	}
+	if st.mdl.PeakAbs > math.MaxFloat64/1024 {
 		c.Count("oracle.sum_checks.skipped_overflow", 1)
 	} else if !(math.Abs(got-es.sum) <= bound) {
 		c.Failf("exact.sum", "GetSum()=%v, exact %v: |diff| %g > bound %g (%d items, %v lossy events)", got, es.sum, math.Abs(got-es.sum), bound, es.n, L)
@@ -372,7 +375,10 @@ func checkCoherence(c *core.Ctx, st *skState) {
 			}
 		}
 		// zero-bucket members contribute 0 to the sketch's sum and at most Min*w to the true sum
-		if es.absSum > math.MaxFloat64/1024 {
+		if es.absSum > st.mdl.PeakAbs {
+			st.mdl.PeakAbs = es.absSum
+		}
+		if st.mdl.PeakAbs > math.MaxFloat64/1024 {
 			return
 		}
 		tol := (m.M.RelativeAccuracy()+slack)*math.Abs(es.sum) + m.Min*st.mdl.Zero*2 + float64(len(items)+1)*0x1p-50*es.absSum
